@@ -60,12 +60,57 @@ Qed.
 Lemma cv_data_not_nil v : is_data v = true -> cv v <> VNil.
 Proof. destruct v; cbn; intros H; try discriminate H; discriminate. Qed.
 
+(* printing and comparing mean the same on both sides *)
+Lemma show_cv b : forall v t, rshow b v = Some t -> show b (cv v) = Some t.
+Proof.
+  fix IH 1. intros v t. destruct v; cbn [cv rshow show]; try (intros H; exact H); try discriminate.
+  intros H.
+  assert (E : forall l0 u, (fix go (l:list rvalue) : option string :=
+               match l with
+               | [] => Some ""
+               | u :: l' => match rshow b u, go l' with
+                            | Some a, Some b => Some (append a (match l' with [] => b | _ => append "," b end))
+                            | _, _ => None end end) l0 = Some u ->
+             (fix go (l:list value) : option string :=
+               match l with
+               | [] => Some ""
+               | u :: l' => match show b u, go l' with
+                            | Some a, Some b => Some (append a (match l' with [] => b | _ => append "," b end))
+                            | _, _ => None end end) (map cv l0) = Some u).
+  { induction l0 as [|x l0 IHl]; intros u HU; [exact HU|]. cbn [map].
+    destruct (rshow b x) as [a|] eqn:EA; [|discriminate HU]. rewrite (IH x a EA).
+    match type of HU with match ?g with _ => _ end = _ => destruct g as [bb|] eqn:EB; [|discriminate HU] end.
+    rewrite (IHl bb eq_refl). destruct l0; exact HU. }
+  match type of H with match ?g with _ => _ end = _ => destruct g as [u|] eqn:EG; [|discriminate H] end.
+  rewrite (E l u EG). exact H.
+Qed.
+
+Lemma veqb_cv cs : forall a b, veqb cs (cv a) (cv b) = req cs a b.
+Proof.
+  fix IH 1. intros a b. destruct a; destruct b; try reflexivity.
+  cbn [cv veqb req]. revert l0. induction l as [|u l IHl]; intros [|w l0]; cbn [map]; try reflexivity.
+  rewrite IH, IHl. reflexivity.
+Qed.
+
 Lemma pure_unary_vm n va v r c : pure_unary n va = Some v -> op_unary n (cv va) r c = Ok (r, c, cv v) /\ cv va <> VNil.
 Proof.
   unfold pure_unary. intros H.
   destruct (String.eqb n "!") eqn:E1; [apply String.eqb_eq in E1; subst n; destruct va; inversion H; subst; split; [reflexivity|discriminate]|].
-  destruct (String.eqb n "count") eqn:E2; [apply String.eqb_eq in E2; subst n; destruct va; inversion H; subst; split; [|discriminate]|discriminate].
-  cbn. now rewrite map_length.
+  destruct (String.eqb n "count") eqn:E2; [apply String.eqb_eq in E2; subst n; destruct va; inversion H; subst; split; [|discriminate]|].
+  { cbn. now rewrite map_length. }
+  destruct (String.eqb n "str") eqn:E3.
+  { apply String.eqb_eq in E3; subst n.
+    assert (N : cv va <> VNil) by (destruct va; try discriminate H; discriminate).
+    split; [|exact N].
+    destruct (rshow true va) as [t|] eqn:ES; [|destruct va; discriminate H].
+    assert (v = RStr t) by (destruct va; inversion H; reflexivity). subst v.
+    unfold op_unary. cbn [String.eqb Ascii.eqb Bool.eqb]. rewrite (show_cv true va t ES). reflexivity. }
+  destruct (String.eqb n "-") eqn:E4.
+  { apply String.eqb_eq in E4; subst n. destruct va; try discriminate H. split; [|discriminate].
+    destruct (Z.eqb n 0) eqn:Z0; [discriminate H|]. destruct (is_int_in_range (- n)) eqn:R; inversion H; subst.
+    cbn. rewrite Z0. unfold num. rewrite R. reflexivity. }
+  destruct (String.eqb n "+") eqn:E5; [|discriminate H].
+  apply String.eqb_eq in E5; subst n. destruct va; inversion H; subst; split; try reflexivity; discriminate.
 Qed.
 
 Lemma pure_binary_vm n va vb v r c : pure_binary n va vb = Some v ->
@@ -94,7 +139,26 @@ Proof.
   { apply String.eqb_eq in E7; subst n. destruct va, vb; inversion H; subst. repeat split; try discriminate. }
   destruct (String.eqb n ">=") eqn:E8.
   { apply String.eqb_eq in E8; subst n. destruct va, vb; inversion H; subst. repeat split; try discriminate. }
-  discriminate.
+  destruct (String.eqb n "*") eqn:E9.
+  { apply String.eqb_eq in E9; subst n. destruct va, vb; try discriminate H.
+    destruct (andb (Z.eqb (n * n0) 0) (orb (Z.ltb n 0) (Z.ltb n0 0))) eqn:NZ; [discriminate H|].
+    destruct (is_int_in_range (n * n0)) eqn:R; inversion H; subst. repeat split; try discriminate.
+    cbn. rewrite NZ. unfold num. rewrite R. reflexivity. }
+  destruct (String.eqb n "==") eqn:E10.
+  { apply String.eqb_eq in E10; subst n. destruct va, vb; inversion H; subst; repeat split; try discriminate;
+      unfold op_binary; cbn [String.eqb Ascii.eqb Bool.eqb orb cv]; rewrite <- veqb_cv; reflexivity. }
+  destruct (String.eqb n "!=") eqn:E11.
+  { apply String.eqb_eq in E11; subst n. destruct va, vb; inversion H; subst; repeat split; try discriminate;
+      unfold op_binary; cbn [String.eqb Ascii.eqb Bool.eqb orb cv]; rewrite <- veqb_cv; reflexivity. }
+  destruct (String.eqb n "isequalto") eqn:E12; [|discriminate H].
+  apply String.eqb_eq in E12; subst n.
+  assert (NA : cv va <> VNil) by (destruct va; try discriminate H; discriminate).
+  assert (NB : cv vb <> VNil) by (destruct va; try discriminate H; destruct vb; try discriminate H; discriminate).
+  split; [|split; assumption].
+  destruct (rshow true va) as [ta|] eqn:SA; [|destruct va; try discriminate H; destruct vb; discriminate H].
+  destruct (rshow true vb) as [tb|] eqn:SB; [|destruct va; try discriminate H; destruct vb; discriminate H].
+  assert (v = RBool (req true va vb)) by (destruct va; try discriminate H; destruct vb; try discriminate H; inversion H; reflexivity). subst v.
+  unfold op_binary. cbn [String.eqb Ascii.eqb Bool.eqb orb]. rewrite (show_cv true va ta SA), (show_cv true vb tb SB), veqb_cv. reflexivity.
 Qed.
 
 Lemma lower_idem s : lower (lower s) = lower s.
@@ -162,6 +226,18 @@ Qed.
 
 Lemma nss_upd_cur r c : r_nss (upd_cur r c) = r_nss r.
 Proof. unfold upd_cur. destruct (r_active r); reflexivity. Qed.
+
+(* what a program can observe of the machine besides its own frames: the namespaces and the markers it logged
+   (diag_log output, newest first; the diagnostics in between are the machine's own business) *)
+Fixpoint marks (out:list event) : list string :=
+  match out with [] => [] | EMark s :: r => s :: marks r | EDiag _ _ :: r => marks r end.
+Definition world (r:rt) : list (string * list (string * value)) * list string := (r_nss r, marks (r_out r)).
+Lemma world_upd_cur r c : world (upd_cur r c) = world r.
+Proof. unfold world, upd_cur. destruct (r_active r); reflexivity. Qed.
+Lemma world_nss r a b : world r = (a, b) -> r_nss r = a.
+Proof. intros H. exact (f_equal fst H). Qed.
+Lemma world_marks r a b : world r = (a, b) -> marks (r_out r) = b.
+Proof. intros H. exact (f_equal snd H). Qed.
 
 Lemma env_ok_upd loc glob r c fs ns : env_ok loc glob r fs ns -> env_ok loc glob (upd_cur r c) fs ns.
 Proof. intros [A B]. split; [exact A|]. rewrite nss_upd_cur. exact B. Qed.
@@ -261,8 +337,7 @@ Proof.
     { cbn [f_code f_pos set_pos]. rewrite EC, EP. replace (length pre + k) with (length (pre ++ compile_expr a)) by (rewrite app_length; reflexivity).
       rewrite app_assoc. apply nth_error_mid. }
     assert (VV : cv v <> VNil).
-    { unfold pure_unary in HU. destruct (String.eqb (lower n) "!"); [destruct va; inversion HU; discriminate|].
-      destruct (String.eqb (lower n) "count"); [destruct va; inversion HU; discriminate|discriminate]. }
+    { unfold pure_unary, option_map in HU. crack HU; inversion HU; discriminate. }
     split; [|exact VV].
     eapply steps_trans; [exact S1|].
     destruct (run_one (upd_cur r c1) c1 (set_pos f (f_pos f + k)) rest (IUnary (lower n))
@@ -301,10 +376,7 @@ Proof.
       apply nth_error_mid. }
     destruct (pure_binary_vm (lower n) va vb v r c HBin) as (_ & NA & NB).
     assert (VV : cv v <> VNil).
-    { unfold pure_binary in HBin.
-      repeat match type of HBin with (if ?x then _ else _) = _ => destruct x end; try discriminate;
-        destruct va, vb; try discriminate HBin;
-        repeat match type of HBin with (if ?x then _ else _) = _ => destruct x end; inversion HBin; discriminate. }
+    { unfold pure_binary in HBin. crack HBin; inversion HBin; discriminate. }
     split; [|exact VV].
     eapply steps_trans; [exact S1|]. eapply steps_trans; [exact S2|].
     destruct (run_one (upd_cur r c2) c2 (set_pos f (f_pos f + (ka + kb))) rest (IBinary (lower n))
@@ -361,7 +433,18 @@ Lemma pure_unary_ref n va v f s isc psc : pure_unary n va = Some v -> eval_unary
 Proof.
   unfold pure_unary. intros H.
   destruct (String.eqb n "!") eqn:E1; [apply String.eqb_eq in E1; subst n; destruct va; inversion H; reflexivity|].
-  destruct (String.eqb n "count") eqn:E2; [apply String.eqb_eq in E2; subst n; destruct va; inversion H; reflexivity|discriminate].
+  destruct (String.eqb n "count") eqn:E2; [apply String.eqb_eq in E2; subst n; destruct va; inversion H; reflexivity|].
+  destruct (String.eqb n "str") eqn:E3.
+  { apply String.eqb_eq in E3; subst n. unfold option_map in H.
+    destruct (rshow true va) as [t|] eqn:ES; [|destruct va; discriminate H].
+    assert (v = RStr t) by (destruct va; inversion H; reflexivity). subst v.
+    unfold eval_unary. cbn [String.eqb Ascii.eqb Bool.eqb]. rewrite ES. reflexivity. }
+  destruct (String.eqb n "-") eqn:E4.
+  { apply String.eqb_eq in E4; subst n. destruct va; try discriminate H.
+    destruct (Z.eqb n 0) eqn:Z0; [discriminate H|]. destruct (is_int_in_range (- n)) eqn:R; inversion H; subst.
+    cbn. rewrite Z0. unfold rnum. rewrite R. reflexivity. }
+  destruct (String.eqb n "+") eqn:E5; [|discriminate H].
+  apply String.eqb_eq in E5; subst n. destruct va; inversion H; subst; reflexivity.
 Qed.
 
 Lemma pure_binary_ref n va vb v f s isc psc : pure_binary n va vb = Some v -> eval_binary (S f) s n va vb isc psc = (ONormal v, s).
@@ -381,7 +464,18 @@ Proof.
   destruct (String.eqb n ">") eqn:E6; [apply String.eqb_eq in E6; subst n; destruct va, vb; inversion H; reflexivity|].
   destruct (String.eqb n "<=") eqn:E7; [apply String.eqb_eq in E7; subst n; destruct va, vb; inversion H; reflexivity|].
   destruct (String.eqb n ">=") eqn:E8; [apply String.eqb_eq in E8; subst n; destruct va, vb; inversion H; reflexivity|].
-  discriminate.
+  destruct (String.eqb n "*") eqn:E9.
+  { apply String.eqb_eq in E9; subst n. destruct va, vb; try discriminate H.
+    destruct (andb (Z.eqb (n * n0) 0) (orb (Z.ltb n 0) (Z.ltb n0 0))) eqn:NZ; [discriminate H|].
+    destruct (is_int_in_range (n * n0)) eqn:R; inversion H; subst. cbn. rewrite NZ. unfold rnum. rewrite R. reflexivity. }
+  destruct (String.eqb n "==") eqn:E10; [apply String.eqb_eq in E10; subst n; destruct va, vb; inversion H; reflexivity|].
+  destruct (String.eqb n "!=") eqn:E11; [apply String.eqb_eq in E11; subst n; destruct va, vb; inversion H; reflexivity|].
+  destruct (String.eqb n "isequalto") eqn:E12; [|discriminate H].
+  apply String.eqb_eq in E12; subst n.
+  destruct (rshow true va) as [ta|] eqn:SA; [|destruct va; try discriminate H; destruct vb; discriminate H].
+  destruct (rshow true vb) as [tb|] eqn:SB; [|destruct va; try discriminate H; destruct vb; discriminate H].
+  assert (v = RBool (req true va vb)) by (destruct va; try discriminate H; destruct vb; try discriminate H; inversion H; reflexivity). subst v.
+  unfold eval_binary. cbn [String.eqb Ascii.eqb Bool.eqb orb]. rewrite SA, SB. reflexivity.
 Qed.
 
 Lemma data_not_nil v : is_data v = true -> v <> RNil /\ v <> RNone.
@@ -390,8 +484,7 @@ Proof. destruct v; cbn; intros H; try discriminate H; split; discriminate. Qed.
 Lemma pure_unary_data n va v : pure_unary n va = Some v -> is_data va = true -> is_data v = true /\ va <> RNil /\ va <> RNone.
 Proof.
   unfold pure_unary. intros H D. destruct (data_not_nil _ D) as [A B]. split; [|auto].
-  destruct (String.eqb n "!"); [destruct va; inversion H; reflexivity|].
-  destruct (String.eqb n "count"); [destruct va; inversion H; reflexivity|discriminate].
+  unfold option_map in H. crack H; inversion H; subst; try reflexivity; exact D.
 Qed.
 
 Lemma forallb_app {A} (p:A->bool) a b : forallb p (a ++ b) = andb (forallb p a) (forallb p b).
@@ -400,9 +493,7 @@ Proof. induction a; cbn; auto. rewrite IHa. now rewrite andb_assoc. Qed.
 Lemma pure_binary_data n va vb v : pure_binary n va vb = Some v -> is_data va = true -> is_data vb = true -> is_data v = true.
 Proof.
   unfold pure_binary. intros H DA DB.
-  repeat match type of H with (if ?x then _ else _) = _ => destruct x end; try discriminate;
-    destruct va, vb; try discriminate H;
-    repeat match type of H with (if ?x then _ else _) = _ => destruct x end; inversion H; try reflexivity.
+  crack H; inversion H; try reflexivity.
   cbn in *. rewrite forallb_app, DA, DB. reflexivity.
 Qed.
 
